@@ -46,10 +46,13 @@ impl PackHeader {
     }
 
     pub fn check_info_size(&self) -> ASize {
-        let check_info_size = self.file_size.into_u64()
-            - Self::BLOCK_SIZE as u64
-            - self.check_info_pos.into_u64()
-            - BlockCheck::Crc32.size() as u64;
+        // A header declaring inconsistent sizes gives an empty check info (which does not parse).
+        let check_info_size = self
+            .file_size
+            .into_u64()
+            .saturating_sub(Self::BLOCK_SIZE as u64)
+            .saturating_sub(self.check_info_pos.into_u64())
+            .saturating_sub(BlockCheck::Crc32.size() as u64);
         ASize::new(check_info_size as usize)
     }
 }
